@@ -28,7 +28,7 @@ type AddrManager struct {
 
 	// in number of second
 	expires time.Duration
-	index   map[uint32]string
+	index   map[uint64]string // (branch, child index) -> address, see addrIndexKey
 	addrs   map[string]*ManagedAddress
 	use     AddrUse
 
@@ -471,7 +471,7 @@ func (a *AddrManager) nextAddresses(dbTransaction db.DBTransaction, checkfunc fu
 
 		pass := false
 		for i := startIndex; i < nextIndex; i++ {
-			addr, ok := a.index[i]
+			addr, ok := a.index[addrIndexKey(branch, i)]
 			if !ok {
 				continue
 			}
@@ -579,10 +579,16 @@ func (a *AddrManager) nextAddresses(dbTransaction db.DBTransaction, checkfunc fu
 	return managedAddresses, nil
 }
 
+// addrIndexKey keys AddrManager.index: the external and the internal branch number their
+// children independently, so the child index alone does not identify an address.
+func addrIndexKey(branch, index uint32) uint64 {
+	return uint64(branch)<<32 | uint64(index)
+}
+
 func (a *AddrManager) updateManagedAddress(dbTransaction db.DBTransaction, managedAddresses []*ManagedAddress) error {
 	for _, managedAddress := range managedAddresses {
 		a.addrs[managedAddress.address] = managedAddress
-		a.index[managedAddress.derivationPath.Index] = managedAddress.address
+		a.index[addrIndexKey(managedAddress.derivationPath.Branch, managedAddress.derivationPath.Index)] = managedAddress.address
 	}
 
 	am := dbTransaction.FetchBucket(a.storage)
